@@ -79,54 +79,128 @@ def tb1(ctx, R):
                         which, letter, "; ".join(problems)))
 
 
+def _is_none_atom(attr):
+    return ("cmp", "is", ("self", attr), ("const", None))
+
+
 @rule("TB2", "piece selection is start <= v < end, conditions and functions are built from the same list, nothing else yields NaN", floor=8)
 def tb2(ctx, R):
+    from .sym import Sym, show, alpha, same, select_path, contains, collect
+    from .region import region, cone
     prog = ctx.prog
+    # --- Range.within_range, evaluated for the three kinds of range
     wr = prog.func("thermocouples.Range.within_range")
-    rets = [unparse(n.value).replace(" ", "") for n in walk_body(wr.node) if isinstance(n, ast.Return)]
-    want = {"value<self.end", "self.start<=value", "(self.start<=value)&(value<self.end)"}
-    R.check(set(rets) == want and len(rets) == 3, "thermocouples.Range.within_range", wr.where(), "inclusive start, exclusive end in all three branches",
-            "range membership is %s (expected start <= v < end): a value exactly on a piece boundary belongs to two pieces or to none" % rets)
+    v = ("param", wr.params[1])
+    paths = Sym(prog, wr, wr.cls).function_paths()
+    lo = ("cmp", "<=", ("self", "start"), v)
+    lo2 = ("cmp", ">=", v, ("self", "start"))
+    hi = ("cmp", "<", v, ("self", "end"))
+    hi2 = ("cmp", ">", ("self", "end"), v)
+    scen = {"open below (start None)": ({"start": True, "end": False}, [hi, hi2]),
+            "open above (end None)": ({"start": False, "end": True}, [lo, lo2]),
+            "bounded": ({"start": False, "end": False}, None)}
+    for name, (nulls, want) in scen.items():
+        def oracle(c, nulls=nulls):
+            for a, isnone in nulls.items():
+                if c == _is_none_atom(a):
+                    return isnone
+            return None
+        sel = select_path(paths, oracle)
+        key = "thermocouples.Range.within_range::%s" % name
+        if sel is None:
+            R.undecided(key, wr.where(), "no unique path for this kind of range")
+            continue
+        val = sel[1]
+        if want is not None:
+            R.check(val in want, key, wr.where(), show(alpha(val)), "range membership for a range %s is `%s` (expected inclusive start / exclusive end): a value exactly "
+                    "on a piece boundary belongs to two pieces or to none" % (name, show(alpha(val))))
+        else:
+            ok = val[0] == "binop" and val[1] == "&" and set(val[2]) <= {lo, lo2, hi, hi2} and len(val[2]) == 2 and \
+                any(x in (lo, lo2) for x in val[2]) and any(x in (hi, hi2) for x in val[2])
+            R.check(ok, key, wr.where(), "start <= v < end", "range membership for a bounded range is `%s` (expected (start <= v) & (v < end)): a value exactly on a piece "
+                    "boundary belongs to two pieces or to none" % show(alpha(val)))
+    # --- contiguity verification
     vc = prog.func("thermocouples._verify_contiguous")
-    t = unparse(vc.node)
-    R.check("applicable_range.start != prev_end" in t and "raise ValueError" in t, "thermocouples._verify_contiguous", vc.where(),
-            "pieces must join exactly", "contiguity of the tables is no longer verified")
+    cfg = ctx.cfg(vc)
+    from .rules_resource import _controlling_tests
+    ok = False
+    for r in cfg.where(lambda n: n.kind == "raisestmt"):
+        toks = set()
+        for t in _controlling_tests(cfg, r):
+            toks |= cone(ctx, vc, t.ast)
+            for x in ast.walk(t.ast):
+                if isinstance(x, ast.Compare) and isinstance(x.ops[0], (ast.NotEq,)):
+                    ok = ok or True
+        ok = ok and ".start" in toks and ".end" in toks
+    R.check(ok, "thermocouples._verify_contiguous", vc.where(), "raises unless each piece starts where the previous one ended",
+            "contiguity of the tables is no longer verified (no raise depending on `start != previous end`)")
     ti = prog.func("thermocouples.Thermocouple.__init__")
-    calls = [unparse(c) for c in walk_body(ti.node) if isinstance(c, ast.Call) and call_name(c) == "_verify_contiguous"]
-    R.check(sorted(calls) == ["_verify_contiguous(forward_polynomials)", "_verify_contiguous(inverse_polynomials)"], "thermocouples.Thermocouple.__init__::verification", ti.where(),
-            "both tables verified", "contiguity verified for %s" % calls)
-    for q, attr in (("thermocouples.Thermocouple.celsius_to_mv", "self._forward_polynomials"), ("thermocouples.Thermocouple.mv_to_celsius", "self._inverse_polynomials")):
-        f = prog.func(q)
-        arg = f.params[1]
-        comps = [n for n in walk_body(f.node) if isinstance(n, ast.ListComp)]
-        srcs = [unparse(c.generators[0].iter) for c in comps]
-        elts = [unparse(c.elt) for c in comps]
-        ok = len(comps) == 2 and srcs == [attr, attr] and elts[0] == "p.within_range(%s)" % arg and elts[1] == "p.apply"
-        R.check(ok, q + "::conditions/functions", f.where(), "both lists are built from %s in order" % attr,
-                "conditions %s / functions %s are not built from %s in the same order" % (elts[:1], elts[1:], attr))
-        nans = [n for n in ast.walk(f.node) if isinstance(n, ast.Attribute) and dotted(n) in ("np.nan", "numpy.nan", "np.NaN")] + \
-               [n for n in ast.walk(f.node) if isinstance(n, ast.Call) and call_name(n) in ("float",) and n.args and isinstance(n.args[0], ast.Constant) and str(n.args[0].value).lower() == "nan"]
-        appended = [c for c in walk_body(f.node) if isinstance(c, ast.Call) and call_name(c) == "functions.append" and c.args and dotted(c.args[0]) == "np.nan"]
-        R.check(len(nans) == 1 and len(appended) == 1, q + "::only the unreachable default is NaN", f.where(), "np.nan appears once, as the piecewise default",
-                "%d NaN-producing expression(s) besides the piecewise default: the conversion is no longer total (NaN for inputs outside some limits)" % (len(nans) - len(appended)))
-        extra = [c for c in ast.walk(f.node) if isinstance(c, ast.Call) and call_name(c) in ("np.where", "np.clip", "np.ma.masked_outside", "np.full_like") ]
-        R.check(not extra, q + "::no range masking", f.where(), "no masking outside limits", "result is masked/clipped with `%s`" % (unparse(extra[0])[:60] if extra else ""))
-        pw = [c for c in walk_body(f.node) if isinstance(c, ast.Call) and call_name(c) == "np.piecewise"]
-        R.check(bool(pw) and unparse(pw[0].args[0]) == arg and [unparse(a) for a in pw[0].args[1:3]] == ["conditions", "functions"], q + "::piecewise", f.where(),
-                "np.piecewise(%s, conditions, functions)" % arg, "piecewise evaluation changed")
+    args = sorted(dotted(c.args[0]) or "" for f in region(ctx, ti) for c in walk_body(f.node) if isinstance(c, ast.Call) and call_name(c) == "_verify_contiguous" and c.args)
+    R.check(len(args) >= 2 and len(set(args)) >= 2, "thermocouples.Thermocouple.__init__::verification", ti.where(), "both tables verified (%s)" % args,
+            "contiguity is verified for %s only" % args)
+    # --- the two conversions
     ap = prog.func("thermocouples.Polynomial.apply")
-    r = [unparse(n.value) for n in walk_body(ap.node) if isinstance(n, ast.Return)]
-    mod = prog.module("thermocouples")
-    R.check(r == ["poly.polyval(x, self._coefficients)"] and mod.imports.get("poly") == "numpy.polynomial.polynomial", "thermocouples.Polynomial.apply", ap.where(),
-            "numpy.polynomial.polynomial.polyval: coefficients in ascending order, as tabulated",
-            "polynomials are evaluated by `%s` (import poly=%s): np.polyval expects the highest power first and would silently reverse the tables" % (r, mod.imports.get("poly")))
-    # type K exponential term
+    av = Sym(prog, ap, ap.cls).function_value()
+    R.check(av == ("call", "numpy.polynomial.polynomial.polyval", (("param", ap.params[1]), ("self", "_coefficients")), ()), "thermocouples.Polynomial.apply", ap.where(),
+            "numpy.polynomial.polynomial.polyval(x, coefficients): coefficients in ascending order, as tabulated",
+            "polynomials are evaluated by `%s`: np.polyval expects the highest power first and would silently reverse the tables" % show(alpha(av)))
+    pw_ = prog.func("thermocouples.Polynomial.within_range")
+    pv = Sym(prog, pw_, pw_.cls).function_value()
+    for q, attr in (("thermocouples.Thermocouple.celsius_to_mv", "_forward_polynomials"), ("thermocouples.Thermocouple.mv_to_celsius", "_inverse_polynomials")):
+        f = prog.func(q)
+        x = ("param", f.params[1])
+        paths = Sym(prog, f, f.cls, inline=True).function_paths()
+        # do not inline Polynomial methods: they are called on the pieces (bound variables)
+        for guards, val, _e in paths:
+            pws = collect(val, lambda n: isinstance(n, tuple) and n and n[0] == "call" and n[1] == "numpy.piecewise") if val else []
+            main = [n for n in pws if contains(n, lambda y: y == ("self", attr))]
+            key = "%s::piecewise%s" % (q, "" if not guards else " [%s]" % show(alpha(guards[0]))[:40])
+            if len(main) != 1:
+                R.violation(key, f.where(), "the conversion is not one np.piecewise over self.%s (found %d)" % (attr, len(main)))
+                continue
+            m = main[0]
+            a = m[2]
+            conds, funcs = (a[1], a[2]) if len(a) >= 3 else (None, None)
+            ok_c = conds is not None and conds[0] == "comp" and conds[3] == ("self", attr) and not conds[4] and \
+                conds[1] == ("method", "within_range", conds[2], (x,), ())
+            ok_f = funcs is not None and funcs[0] == "list" and len(funcs[1]) == 2 and funcs[1][0][0] == "splice" and funcs[1][1] == ("ext", "numpy.nan") and \
+                funcs[1][0][1][0] == "comp" and funcs[1][0][1][3] == ("self", attr) and not funcs[1][0][1][4] and \
+                funcs[1][0][1][1] == ("attr", funcs[1][0][1][2], "apply")
+            R.check(a[0] == x and ok_c and ok_f, key, f.where(), "np.piecewise(x, [p.within_range(x) for p in pieces], [p.apply for p in pieces] + [nan])",
+                    "conditions and functions handed to np.piecewise are not built from self.%s in the same order with exactly one NaN default: %s" % (attr, show(alpha(m))[:200]))
+            # nothing else produces NaN / masks the result
+            nans = collect(val, lambda n: n == ("ext", "numpy.nan") or (isinstance(n, tuple) and n and n[0] == "const" and isinstance(n[1], float) and n[1] != n[1]))
+            masks = collect(val, lambda n: isinstance(n, tuple) and n and n[0] == "call" and n[1] in ("numpy.where", "numpy.clip", "numpy.full_like", "numpy.ma.masked_outside"))
+            R.check(len(nans) == 1 and not masks, key + " total", f.where(), "np.nan appears once, as the unreachable piecewise default",
+                    "the result can be NaN / masked besides the unreachable piecewise default (`%s`): the conversion is no longer total" % (show(alpha((masks or nans)[-1]))[:80]))
+    # --- type K exponential term
     f = prog.func("thermocouples.Thermocouple.celsius_to_mv")
-    t = unparse(f.node).replace(" ", "")
-    arg = f.params[1]
-    R.check("a_0*np.exp(a_1*np.square(t-a_2))" in t and ("[%s>=0]" % arg) in t and "a_0,a_1,a_2=self._exponential_term" in t and ",0.0]" in t,
-            "thermocouples.Thermocouple.celsius_to_mv::exponential term", f.where(), "a0 * exp(a1 * (t - a2)**2) for t >= 0, else 0",
-            "the type K exponential term is no longer a0 * exp(a1 * (t - a2)**2) applied for t >= 0 only")
+    T = ("param", f.params[1])
+    paths = Sym(prog, f, f.cls).function_paths()
+
+    def oracle_exp(c):
+        if c == _is_none_atom("_exponential_term"):
+            return False
+        return None
+    sel = select_path(paths, oracle_exp)
+    E = lambda i: ("item", ("self", "_exponential_term"), i)
+    ok = False
+    got = None
+    if sel is not None and sel[1] is not None:
+        pws = collect(sel[1], lambda n: isinstance(n, tuple) and n and n[0] == "call" and n[1] == "numpy.piecewise" and not contains(n, lambda y: y == ("self", "_forward_polynomials")))
+        if len(pws) == 1 and sel[1][0] == "binop" and sel[1][1] == "+":
+            a = pws[0][2]
+            got = pws[0]
+            if len(a) >= 3 and a[0] == T and a[1] == ("list", (("cmp", ">=", T, ("const", 0)),)) and a[2][0] == "list" and len(a[2][1]) == 2 and a[2][1][1] in (("const", 0.0), ("const", 0)):
+                fn = a[2][1][0]
+                if fn[0] == "fn" and len(fn[1]) == 1:
+                    t = fn[1][0]
+                    sy = Sym(prog, f, f.cls)
+                    inner = ("call", "numpy.square", (("binop", "-", (t, E(2))),), ())
+                    want = sy._binop("*", E(0), ("call", "numpy.exp", (sy._binop("*", E(1), inner),), ()))
+                    ok = fn[2] == want
+    R.check(ok, "thermocouples.Thermocouple.celsius_to_mv::exponential term", f.where(), "a0 * exp(a1 * (t - a2)**2) for t >= 0, else 0, added to the polynomial",
+            "the type K exponential term is no longer a0 * exp(a1 * (t - a2)**2) applied for t >= 0 only (%s)" % (show(alpha(got))[:200] if got else "not found"))
 
 
 def _load(name):
@@ -216,100 +290,110 @@ def tb3(ctx, R):
 
 @rule("TB4", "NI thermocouple type codes select the table of the same letter", floor=8)
 def tb4(ctx, R):
+    from .region import region
     prog = ctx.prog
-    smod = prog.module("scaling")
-    cls = prog.cls("scaling.ThermocoupleScaling")
-    dicts = [n for n in ast.walk(cls.node) if isinstance(n, ast.Dict) and len(n.keys) >= 8]
-    if not dicts:
-        raise AnchorMissing("scaling.ThermocoupleScaling: type code dictionary")
-    d = dicts[0]
+    init = prog.func("scaling.ThermocoupleScaling.__init__")
+    cands = []
+    for f in region(ctx, init, same_module=False):
+        for n in ast.walk(f.node):
+            if isinstance(n, ast.Dict) and len(n.keys) >= 8 and all(isinstance(prog.try_fold(k, f.module), int) for k in n.keys):
+                cands.append((f.module, n))
+    for mname in ("scaling", "thermocouples"):
+        mod = prog.module(mname)
+        for nm, v in mod.assigns.items():
+            if isinstance(v, ast.Dict) and len(v.keys) >= 8 and all(isinstance(prog.try_fold(k, mod), int) for k in v.keys):
+                cands.append((mod, v))
+        for ci in prog.classes.values():
+            if ci.module is mod:
+                for nm, v in ci.attrs.items():
+                    if isinstance(v, ast.Dict) and len(v.keys) >= 8 and all(isinstance(prog.try_fold(k, mod), int) for k in v.keys):
+                        cands.append((mod, v))
+    if not cands:
+        raise AnchorMissing("thermocouple type code dictionary (looked in ThermocoupleScaling.__init__, its helpers and module/class level tables)")
+    dmod, d = cands[0]
     got = {}
     for k, v in zip(d.keys, d.values):
-        got[prog.try_fold(k, smod)] = dotted(v)
+        r = prog.resolve_expr(dmod, v)
+        name = None
+        if r and r[0] == "const" and r[2].name == "thermocouples":
+            for nm, val in r[2].assigns.items():
+                if val is r[1]:
+                    name = nm
+        got[prog.try_fold(k, dmod)] = name or dotted(v)
+    where = "%s:%d" % (dmod.relpath, d.lineno)
     for code, letter in sorted(NI_CODES.items()):
-        want = "thermocouples.type_%s" % letter.lower()
-        R.check(got.get(code) == want, "scaling.ThermocoupleScaling::code %d" % code, "%s:%d" % (smod.relpath, d.lineno), "%d -> type %s" % (code, letter),
+        want = "type_%s" % letter.lower()
+        g = (got.get(code) or "").split(".")[-1]
+        R.check(g == want, "thermocouple type code %d" % code, where, "%d -> type %s" % (code, letter),
                 "NI-DAQmx thermocouple type code %d (type %s) selects %s: channels of this type are converted with another type's tables" % (code, letter, got.get(code)))
-    R.check(len(set(got.values())) == len(got) == 8, "scaling.ThermocoupleScaling::eight distinct targets", "%s:%d" % (smod.relpath, d.lineno), "8 codes, 8 tables",
+    R.check(len(set(got.values())) == len(got) == 8, "thermocouple type codes::eight distinct targets", where, "8 codes, 8 tables",
             "type code map has %d entries with %d distinct targets" % (len(got), len(set(got.values()))))
     fp = prog.func("scaling.ThermocoupleScaling.from_properties")
     t = unparse(fp.node)
-    R.check("_Thermocouple_Type" in t and "_Scaling_Direction" in t and "10072" in t, "scaling.ThermocoupleScaling.from_properties", fp.where(),
+    R.check("Thermocouple_Type" in t and "Scaling_Direction" in t and "10072" in t, "scaling.ThermocoupleScaling.from_properties", fp.where(),
             "type (default J) and direction are read from the scale's properties", "type/direction properties are not read as before")
 
 
-def _ten_exponent(prog, fi, e, target_call):
-    """Power of ten applied around `target_call` inside expression e:  (factor on argument, factor on result)."""
+def _factor_to(node, target_pred):
+    """log10 of the constant factor by which `node` multiplies the subtree satisfying target_pred (None if not of that shape)"""
     import math
+    if target_pred(node):
+        return 0
 
-    def lit(x):
-        v = prog.try_fold(x, fi.module)
-        if isinstance(v, (int, float)) and v > 0:
-            lg = math.log10(v)
-            if abs(lg - round(lg)) < 1e-12:
-                return int(round(lg))
+    def lg(c):
+        if isinstance(c, tuple) and c and c[0] == "const" and isinstance(c[1], (int, float)) and not isinstance(c[1], bool) and c[1] > 0:
+            v = math.log10(c[1])
+            return int(round(v)) if abs(v - round(v)) < 1e-12 else None
         return None
-    # result factor: walk up multiplications/divisions around the call
-    res = 0
-    cur = e
-
-    def find(node, acc):
-        if node is target_call:
-            return acc
-        if isinstance(node, ast.BinOp) and isinstance(node.op, (ast.Mult, ast.Div)):
-            l, r = lit(node.left), lit(node.right)
-            if isinstance(node.op, ast.Mult):
-                if l is not None:
-                    x = find(node.right, acc + l)
-                    if x is not None:
-                        return x
-                if r is not None:
-                    x = find(node.left, acc + r)
-                    if x is not None:
-                        return x
-            else:
-                if r is not None:
-                    x = find(node.left, acc - r)
-                    if x is not None:
-                        return x
-        return None
-    return find(e, 0)
+    if isinstance(node, tuple) and node and node[0] == "binop" and node[1] == "*":
+        consts = [lg(t) for t in node[2]]
+        others = [t for t, l in zip(node[2], consts) if l is None]
+        if len(others) == 1 and all(l is not None for t, l in zip(node[2], consts) if t is not others[0]):
+            inner = _factor_to(others[0], target_pred)
+            return None if inner is None else inner + sum(l for l in consts if l is not None)
+    if isinstance(node, tuple) and node and node[0] == "binop" and node[1] == "/" and len(node[2]) == 2:
+        l = lg(node[2][1])
+        inner = _factor_to(node[2][0], target_pred)
+        if l is not None and inner is not None:
+            return inner - l
+    return None
 
 
-@rule("TB5", "the scaling applies the configured direction with TDMS's microvolt convention", floor=3)
+@rule("TB5", "the scaling applies the configured direction with TDMS's microvolt convention", floor=2)
 def tb5(ctx, R):
+    from .sym import Sym, show, alpha, select_path, collect, contains
     prog = ctx.prog
     fi = prog.func("scaling.ThermocoupleScaling.scale")
-    ifs = [n for n in walk_body(fi.node) if isinstance(n, ast.If) and "scaling_direction" in unparse(n.test)]
-    if not ifs:
-        raise AnchorMissing("scaling.ThermocoupleScaling.scale: branch on scaling_direction")
-    br = ifs[0]
-    R.check(unparse(br.test) == "self.scaling_direction == 1", "scaling.ThermocoupleScaling.scale::direction test", fi.where(br),
-            "direction 1 = temperature to voltage", "direction test is `%s`" % unparse(br.test))
+    paths = Sym(prog, fi, fi.cls).function_paths()
+    data = ("param", fi.params[1])
 
-    def analyse(stmts, method):
-        calls = [c for s in stmts for c in ast.walk(s) if isinstance(c, ast.Call) and isinstance(c.func, ast.Attribute) and c.func.attr == method]
-        if not calls:
+    def is_data(n):
+        # the input array, possibly converted to double
+        if n == data:
+            return True
+        return isinstance(n, tuple) and n and n[0] == "method" and n[1] == "astype" and n[2] == data
+    for direction, method, want in ((1, "celsius_to_mv", (0, 3)), (0, "mv_to_celsius", (-3, 0))):
+        def oracle(c, direction=direction):
+            if c == ("cmp", "==", ("self", "scaling_direction"), ("const", 1)):
+                return direction == 1
+            if c == ("cmp", "!=", ("self", "scaling_direction"), ("const", 1)):
+                return direction != 1
             return None
+        sel = select_path(paths, oracle)
+        key = "scaling.ThermocoupleScaling.scale::direction %d" % direction
+        if sel is None or sel[1] is None:
+            R.undecided(key, fi.where(), "no unique path for scaling_direction %s 1" % ("==" if direction == 1 else "!="))
+            continue
+        val = sel[1]
+        calls = collect(val, lambda n: isinstance(n, tuple) and n and n[0] == "method" and n[1] in ("celsius_to_mv", "mv_to_celsius") and n[2] == ("self", "thermocouple"))
+        if len(calls) != 1 or calls[0][1] != method:
+            R.violation(key, fi.where(), "with scaling_direction %s 1 the conversion applied is %s (expected %s)" % (
+                "==" if direction == 1 else "!=", [c[1] for c in calls], method))
+            continue
         c = calls[0]
-        ret = [s for s in stmts if isinstance(s, ast.Return)]
-        res_exp = _ten_exponent(prog, fi, ret[0].value, c) if ret else None
-        arg = c.args[0]
-        arg_exp = 0
-        if isinstance(arg, ast.Name):
-            ds = [s.value for s in stmts if isinstance(s, ast.Assign) and dotted(s.targets[0]) == arg.id]
-            if ds:
-                inner = [x for x in ast.walk(ds[0]) if isinstance(x, ast.Name) and x.id == fi.params[1]]
-                arg_exp = _ten_exponent(prog, fi, ds[0], inner[0]) if inner else None
-        elif not (isinstance(arg, ast.Name)):
-            inner = [x for x in ast.walk(arg) if isinstance(x, ast.Name) and x.id == fi.params[1]]
-            arg_exp = _ten_exponent(prog, fi, arg, inner[0]) if inner else None
-        return arg_exp, res_exp
-    fwd = analyse(br.body, "celsius_to_mv")
-    inv = analyse(br.orelse, "mv_to_celsius")
-    R.check(fwd == (0, 3), "scaling.ThermocoupleScaling.scale::direction 1", fi.where(br), "microvolts = 10**3 x celsius_to_mv(data)",
-            "in direction 1 the data is scaled by 10**%s before and the result by 10**%s after celsius_to_mv (expected 0 and 3: mV -> uV); wrong branch or wrong unit factor" % (
-                fwd if fwd is None else fwd[0], None if fwd is None else fwd[1]))
-    R.check(inv == (-3, 0), "scaling.ThermocoupleScaling.scale::direction 0", fi.where(br), "temperature = mv_to_celsius(data x 10**-3)",
-            "in the voltage->temperature direction the data is scaled by 10**%s before and the result by 10**%s after mv_to_celsius (expected -3 and 0: uV -> mV)" % (
-                inv if inv is None else inv[0], None if inv is None else inv[1]))
+        res = _factor_to(val, lambda n: n == c)
+        arg = _factor_to(c[3][0], is_data) if c[3] else None
+        R.check((arg, res) == want, key, fi.where(), "%s with data x 10**%d, result x 10**%d (TDMS stores microvolts, the tables use millivolts)" % (method, want[0], want[1]),
+                "in direction %d the data is scaled by 10**%s before and the result by 10**%s after %s (expected %d and %d): wrong unit factor" % (direction, arg, res, method, want[0], want[1]))
+
+
